@@ -313,6 +313,10 @@ class Program:
                                 cg[f.name].add(o[1])
                 elif t[0] == 'dep':
                     cg[f.name].add('dep:' + t[1])
+                    # library-defined defaults stored in the dependency table (the NULL-clock default, ...) run in the caller's context
+                    for g in self.dep_globals():
+                        for o in pts.content(('global', g['name'])):
+                            if o[0] == 'func' and o[1] in self.defined: cg[f.name].add(o[1])
                 elif t[0] == 'indirect':
                     for o in pts.of(f, t[1]):
                         if o[0] == 'func':
@@ -347,6 +351,7 @@ class PointsTo:
         self.memcpys = []   # (dst node, src node)
         self.icalls = []    # (fn, inst, callee node)
         self.bsearch = []   # (fn, inst)
+        self.depcalls = []  # (fn, inst): calls through the dependency table (library-defined defaults are bound like indirect callees)
         self.keys = collections.defaultdict(set)    # object -> content keys in use
         self._build()
         self._solve()
@@ -447,6 +452,7 @@ class PointsTo:
                         elif cal in ('malloc', 'calloc', 'realloc'):
                             self.pts[dst].add(('heap', f.name, i.id))
                     elif t[0] == 'dep':
+                        self.depcalls.append((f, i))
                         if t[1] == 'alloc':
                             self.pts[dst].add(('heap', f.name, i.id))
                     elif t[0] == 'indirect':
@@ -499,7 +505,7 @@ class PointsTo:
                     else:
                         if addall(dst, self.pts.get(('content', o, key), set()) | self.pts.get(('content', o, '*'), set())): changed = True
             for a, s, key in self.stores:
-                ps = self.pts.get(s)
+                ps = {s[1]} if s[0] == 'addr' else self.pts.get(s)      # (the address of a function / global stored directly)
                 if not ps: continue
                 for o in list(self.pts.get(a, ())):
                     self.keys[o].add(key)
@@ -519,6 +525,11 @@ class PointsTo:
                 for o in list(self.pts.get(c, ())):
                     if o[0] == 'func' and o[1] in self.prog.defined and (f.name, i.id, o[1]) not in bound:
                         bound.add((f.name, i.id, o[1])); self._bind(f, i, o[1]); changed = True
+            for f, i in self.depcalls:
+                for g_ in self.prog.dep_globals():
+                    for o in list(self.content(('global', g_['name']))):
+                        if o[0] == 'func' and o[1] in self.prog.defined and (f.name, i.id, o[1]) not in bound and len(self.prog.defined[o[1]].params) <= len(i.ops):
+                            bound.add((f.name, i.id, o[1])); self._bind(f, i, o[1]); changed = True
             for f, i in self.bsearch:
                 c = self.node(f, i.ops[4])
                 for o in list(self.pts.get(c, ())):
